@@ -251,6 +251,25 @@ CLAIMED = {
         "times 'ties to the earlier' is not meaningful); negative / out-of-range sample indices are not part of the statement; queries "
         "in other time units are generated only where conversion rounding cannot flip the answer; the Python harness.",
         "DESIGN.md section 6 / C17"),
+    "C19": (
+        "Coq proof over code points: parsing sums the written coefficients per label, print-then-parse returns the same coefficient for every label (all label-rule-conforming reactions), int text round trip, net change / reverse, dimension of rate constants + correspondence on equation strings (incl. malformed), printed reactions, constants, split, K and network validity",
+        "Theorems (Props/C19.v, closed under the global context): for any token list the dictionary built by parsing gives every label the "
+        "sum of the coefficients written for it (missing coefficient = 1, repeats summed); for EVERY reaction whose labels obey the label "
+        "rule (non-empty, no whitespace in Python's str.isspace sense, no '+', no '->') and are distinct within a side - any number of "
+        "terms, any integer coefficients, zero coefficients, empty sides - parse_eq (print_eq r) succeeds and returns the same coefficient "
+        "for every label on both sides (proved through the separator-splitting functions: no '->' or '+' arises inside or between printed "
+        "terms); parse_int (print_int z) = z for all z; net change = products - reactants and the reverse reaction has the opposite one; a "
+        "constant of order n has dimension length^(3n-3) time^-1 amount^(1-n), which makes k V (x/V)^n an amount per time. Tied to the "
+        "code on every run: 2500 equation strings (well-formed with arbitrary spacing incl. tabs / no-break / em spaces / control "
+        "separators, signed, underscored and malformed coefficients, missing / doubled '->' and '+') through Reaction(text) vs parse_eq "
+        "(raise-or-dictionaries in insertion order); 1500 reactions through to_string / re-parse / ssto / psto / dsto / order / rorder, "
+        "labels filtered by the package's own label rule; 600 constants of orders 0..8 (bare numbers, quantities in random systems, wrong "
+        "dimensions) incl. split() and K; 300 networks with duplicate / undeclared species and duplicate reaction labels.",
+        "Trusted: Coq kernel + VM; the hand-written model of Python's str.split / strip / isspace / int on the inputs generated (non-ASCII "
+        "digits, which int() accepts, are not generated); empty labels are excluded (the label rule accepts them vacuously, a reaction "
+        "using one prints as blanks); per-environment constant dictionaries are exercised in C01/C13, not here; unit-conversion overflow "
+        "of binary64 for exponents up to 21 between extreme prefixes is discarded and counted.",
+        "DESIGN.md section 6 / C19"),
 }
 
 NOT_YET = "check not built yet in this round (work in progress; see DESIGN.md section 9 for the order of work)"
